@@ -794,3 +794,154 @@ Proof.
   reflexivity.
 Qed.
 Print Assumptions link_Enc_ham_tail.
+
+(* ------------------------------------------------------------------ _prepare_hamiltonian: the weighted viability terms
+   The third loop of _prepare_hamiltonian (fragment behind `variable_viability_terms: list = []`): for every operation, in
+   instance order, the variable's viability term times (largest constraint count over its start times + 1).  The count dict
+   is read through C15Aux.counts_agree (what the pair terms maintain: dict_plan_bump_agree): under it the loop computes
+   Encoder.weighted_viability with the model's count table, for any list of terms collected so far. *)
+(* the loop that finds the largest constraint count of a variable's start times, read through the agreement of the count
+   dict with the model's table *)
+Lemma viab_max_loop f v st : forall vals m,
+  (forall t, In t vals -> py_dict_get ckey_eqb (st_counts st) (v_op v, t) = Ok (Z.of_nat (f (v_id v) t))) ->
+  py_foldM (fun '(max_constraints_per_variable, st) start_time =>
+      do dv4_ <- py_dict_get (fun a b => op_eqb (fst a) (fst b) && Z.eqb (snd a) (snd b)) (st_counts st) (v_op v, start_time);
+      do j6_ <-
+        (if (max_constraints_per_variable <? dv4_)%Z
+        then
+          do dv5_ <- py_dict_get (fun a b => op_eqb (fst a) (fst b) && Z.eqb (snd a) (snd b)) (st_counts st) (v_op v, start_time);
+          let max_constraints_per_variable := dv5_ in
+          Ok (max_constraints_per_variable, st)
+        else
+          Ok (max_constraints_per_variable, st));
+      let '(max_constraints_per_variable, st) := j6_ in
+      Ok (max_constraints_per_variable, st)) vals (Z.of_nat m, st)
+  = Ok (Z.of_nat (fold_left (fun m t => if (m <? f (v_id v) t)%nat then f (v_id v) t else m) vals m), st).
+Proof.
+  induction vals as [|t r IH]; intros m Hag; [reflexivity|].
+  cbn [py_foldM fold_left]. cbv zeta.
+  repeat match goal with |- context [py_dict_get ?E (st_counts st) (v_op v, t)] =>
+    replace (py_dict_get E (st_counts st) (v_op v, t)) with (@Ok Z (Z.of_nat (f (v_id v) t)))
+      by (symmetry; exact (Hag t (or_introl eq_refl)))
+  end. cbn [bind].
+  destruct (Z.ltb_spec (Z.of_nat m) (Z.of_nat (f (v_id v) t))) as [Hlt|Hge];
+    destruct (Nat.ltb_spec m (f (v_id v) t)) as [Hlt'|Hge']; try lia; cbn [bind];
+    apply IH; intros t' Ht'; apply Hag; now right.
+Qed.
+
+Definition viab_body (st0 : encstate) :=
+  (fun '(variable_viability_terms, st) (operation_ : operation) =>
+          do dv1_ <- py_dict_get op_eqb (st_vars st) operation_;
+          do v2_ <- gen_DWV_viability_term dv1_ (st_nq st);
+          let viability_term := v2_ in
+          let max_constraints_per_variable := 0%Z in
+          do dv3_ <- py_dict_get op_eqb (st_vars st) operation_;
+          do l7_ <-
+            py_foldM (fun '(max_constraints_per_variable, st) start_time =>
+              do dv4_ <- py_dict_get (fun a b => op_eqb (fst a) (fst b) && Z.eqb (snd a) (snd b)) (st_counts st) (operation_, start_time);
+              do j6_ <-
+                (if (max_constraints_per_variable <? dv4_)%Z
+                then
+                  do dv5_ <- py_dict_get (fun a b => op_eqb (fst a) (fst b) && Z.eqb (snd a) (snd b)) (st_counts st) (operation_, start_time);
+                  let max_constraints_per_variable := dv5_ in
+                  Ok (max_constraints_per_variable, st)
+                else
+                  Ok (max_constraints_per_variable, st));
+              let '(max_constraints_per_variable, st) := j6_ in
+              Ok (max_constraints_per_variable, st)) (gen_DWV_values dv3_) (max_constraints_per_variable, st);
+          let '(max_constraints_per_variable, st) := l7_ in
+          let variable_viability_terms := (variable_viability_terms ++ [(OpScale (inject_Z (max_constraints_per_variable + (1%Z))%Z) viability_term)])%list in
+          Ok (variable_viability_terms, st)) : (list opexpr * encstate) -> operation -> result (list opexpr * encstate).
+
+Lemma viab_step f v st acc :
+  py_dict_get op_eqb (st_vars st) (v_op v) = Ok (ghost v) ->
+  (forall t, In t (v_values v) -> py_dict_get ckey_eqb (st_counts st) (v_op v, t) = Ok (Z.of_nat (f (v_id v) t))) ->
+  viab_body st (acc, st) (v_op v)
+  = do t <- weighted_viability f (Z.to_nat (st_nq st)) v; Ok ((acc ++ [t])%list, st).
+Proof.
+  intros Hget Hag. unfold viab_body, weighted_viability. cbv zeta. rewrite Hget. cbn [bind].
+  rewrite link_DWV_viability_term. change (viability_term (ghost v)) with (viability_term v).
+  destruct (viability_term v (Z.to_nat (st_nq st))) as [vt|err]; cbn [bind]; [|reflexivity].
+  unfold gen_DWV_values. change (v_values (ghost v)) with (v_values v).
+  match goal with |- context [py_foldM ?F (v_values v) (0, st)] =>
+    replace (py_foldM F (v_values v) (0, st))
+      with (@Ok (Z * encstate) (Z.of_nat (fold_left (fun m t => if (m <? f (v_id v) t)%nat then f (v_id v) t else m) (v_values v) 0%nat), st))
+      by (symmetry; exact (viab_max_loop f v st (v_values v) 0%nat Hag))
+  end.
+  cbn [bind]. unfold max_count. rewrite Nat2Z.inj_add. reflexivity.
+Qed.
+
+Lemma viab_inner f st : forall vs acc,
+  (forall v, In v vs -> py_dict_get op_eqb (st_vars st) (v_op v) = Ok (ghost v)) ->
+  (forall v t, In v vs -> In t (v_values v) -> py_dict_get ckey_eqb (st_counts st) (v_op v, t) = Ok (Z.of_nat (f (v_id v) t))) ->
+  py_foldM (viab_body st) (map v_op vs) (acc, st)
+  = do ts <- mapM (weighted_viability f (Z.to_nat (st_nq st))) vs; Ok ((acc ++ ts)%list, st).
+Proof.
+  induction vs as [|v r IH]; intros acc Hget Hag; [cbn; now rewrite app_nil_r|].
+  cbn [map py_foldM mapM].
+  rewrite (viab_step f v st acc (Hget v (or_introl eq_refl)) (fun t Ht => Hag v t (or_introl eq_refl) Ht)).
+  destruct (weighted_viability f (Z.to_nat (st_nq st)) v) as [t|err]; cbn [bind]; [|reflexivity].
+  rewrite IH by (intros; first [apply Hget | apply Hag]; try assumption; now right).
+  destruct (mapM _ r) as [ts|err]; cbn [bind]; [|reflexivity]. now rewrite <- app_assoc.
+Qed.
+
+Lemma mapM_app_r {A B} (g : A -> result B) (l1 l2 : list A) :
+  mapM g (l1 ++ l2) = do a <- mapM g l1; do b <- mapM g l2; Ok (a ++ b)%list.
+Proof.
+  induction l1 as [|x r IH]; cbn [mapM app bind].
+  - destruct (mapM g l2); reflexivity.
+  - destruct (g x); cbn [bind]; [|reflexivity]. rewrite IH.
+    destruct (mapM g r); cbn [bind]; [|reflexivity]. destruct (mapM g l2); reflexivity.
+Qed.
+
+Lemma viab_outer f st : forall jobs vss acc,
+  map (map v_op) vss = map job_ops jobs ->
+  (forall v, In v (concat vss) -> py_dict_get op_eqb (st_vars st) (v_op v) = Ok (ghost v)) ->
+  (forall v t, In v (concat vss) -> In t (v_values v) -> py_dict_get ckey_eqb (st_counts st) (v_op v, t) = Ok (Z.of_nat (f (v_id v) t))) ->
+  py_foldM (fun '(variable_viability_terms, st) job_ =>
+      do l8_ <- py_foldM (viab_body st) (job_ops job_) (variable_viability_terms, st);
+      let '(variable_viability_terms, st) := l8_ in
+      Ok (variable_viability_terms, st)) jobs (acc, st)
+  = do ts <- mapM (weighted_viability f (Z.to_nat (st_nq st))) (concat vss); Ok ((acc ++ ts)%list, st).
+Proof.
+  induction jobs as [|j r IH]; intros vss acc Hm Hget Hag.
+  - destruct vss; [|discriminate]. cbn. now rewrite app_nil_r.
+  - destruct vss as [|vs vss']; [discriminate|]. cbn [map] in Hm. injection Hm as Hj Hr.
+    cbn [py_foldM concat]. rewrite <- Hj.
+    rewrite (viab_inner f st vs acc) by (intros; first [apply Hget | apply Hag]; try assumption; cbn [concat]; apply in_or_app; now left).
+    rewrite mapM_app_r.
+    destruct (mapM (weighted_viability f (Z.to_nat (st_nq st))) vs) as [ts|err]; cbn [bind]; [|reflexivity].
+    rewrite (IH vss' (acc ++ ts)%list Hr) by (intros; first [apply Hget | apply Hag]; try assumption; cbn [concat]; apply in_or_app; now right).
+    destruct (mapM _ (concat vss')) as [ts'|err]; cbn [bind]; [|reflexivity]. now rewrite app_assoc.
+Qed.
+
+Lemma link_Enc_ham_viability_terms : forall I L e st f acc,
+  map (map v_op) (e_jobs e) = map job_ops (inst_jobs I) ->
+  (forall v, In v (e_vars e) -> py_dict_get op_eqb (st_vars st) (v_op v) = Ok (ghost v)) ->
+  st_nq st = Z.of_nat (e_nq e) ->
+  counts_agree (st_counts st) f (e_vars e) ->
+  gen_Enc_ham_viability_terms I L acc st
+  = do ts <- mapM (weighted_viability f (e_nq e)) (e_vars e); Ok ((acc ++ ts)%list, st).
+Proof.
+  intros I L e st f acc Hm Hget Hq Hag. unfold gen_Enc_ham_viability_terms.
+  match goal with |- bind ?X _ = _ =>
+    replace X with (do ts <- mapM (weighted_viability f (Z.to_nat (st_nq st))) (concat (e_jobs e)); Ok ((acc ++ ts)%list, st))
+      by (symmetry; exact (viab_outer f st (inst_jobs I) (e_jobs e) acc Hm Hget (fun v t Hv Ht => Hag v t Hv Ht)))
+  end.
+  rewrite Hq, Nat2Z.id. unfold e_vars.
+  destruct (mapM _ (concat (e_jobs e))) as [ts|err]; reflexivity.
+Qed.
+Print Assumptions link_Enc_ham_viability_terms.
+
+Lemma link_Enc_ham_viability_terms_after_prepare : forall I L e st f acc, prepare_encoding I L = Ok e ->
+  NoDup (map v_op (e_vars e)) -> reached_from_prepared e st -> counts_agree (st_counts st) f (e_vars e) ->
+  gen_Enc_ham_viability_terms I L acc st
+  = do ts <- mapM (weighted_viability f (e_nq e)) (e_vars e); Ok ((acc ++ ts)%list, st).
+Proof.
+  intros I L e st f acc He Hnd [Hv [Hn _]] Hag. apply link_Enc_ham_viability_terms; [| | |exact Hag].
+  - unfold prepare_encoding in He. destruct (prep_jobs L 0 0 (inst_jobs I)) as [js|] eqn:Ej; cbn [bind] in He; [|discriminate].
+    injection He as <-. cbn [e_jobs]. eapply prep_jobs_ops, Ej.
+  - intros v Hin. rewrite Hv. now apply prepared_state_ok.
+  - rewrite Hn. eapply st_nq_state_of_enc, He.
+Qed.
+Print Assumptions link_Enc_ham_viability_terms_after_prepare.
